@@ -121,7 +121,8 @@ func injections(r *rand.Rand, base vlib.PolicySpec, t *vlib.Target, ts []*vlib.T
 				continue
 			}
 			for ci := range e.Conds {
-				bi := []uint32{6, 7, 255, 1 << 31, 1<<32 - 1, 8, 1 << 29}[r.Intn(7)]
+				// indices above 5, incl. those that look small once truncated, sign-converted or multiplied by eight
+				bi := []uint32{6, 7, 255, 1 << 31, 1<<32 - 1, 8, 1 << 29, 1<<31 | 6, 1<<31 | 5, 1<<29 | 6, 1<<29 | 2, 1<<32 - 2, 1 << 16, 1<<8 | 3}[r.Intn(14)]
 				s := cloneSpec(base)
 				s.Groups[gi].With[wi].Conds[ci].Arg = bi
 				add("argument-index", fmt.Sprintf("group %d entry %d cond %d/%d arg=%d", gi, wi, ci, len(e.Conds), bi), s)
